@@ -759,3 +759,8 @@ mod tests {
     // }
     // }
 }
+
+#[cfg(kani)]
+pub(crate) mod verif {
+    include!(concat!(env!("LIBP2P_VERIF"), "/hooks/kad_protocol.rs"));
+}
